@@ -72,8 +72,9 @@ def rand_table(r, nmax):
     for _ in range(n):
         t.append(cur)
         cur += r.choice([1, 5, 10, 10, 60])
-    tb = {"t": t, "hastime": True, "data": {"a": [r.choice([0, 0, 1, 2, 5, 7]) for _ in range(n)],
-                           "b": [r.choice([0, 1, 1, 3, 6]) for _ in range(n)]},
+    # (negative and > 255 values: an accumulator of the wrong dtype would wrap or truncate them)
+    tb = {"t": t, "hastime": True, "data": {"a": [r.choice([0, 0, 1, 2, 5, 7, -4, 300]) for _ in range(n)],
+                           "b": [r.choice([0, 1, 1, 3, 6, -2, 1000]) for _ in range(n)]},
           "z": [], "lat": [], "lon": []}
     if r.random() < 0.6:
         z, v = [], r.randint(0, 3)
@@ -228,6 +229,19 @@ def check(ctx):
     ctx.cov["model_initial_states_total"] = len(blocks)
     ctx.cov["model_initial_states_replayed"] = len(cases)
     ctx.cov["exhaustive"] = len(cases) >= len(blocks)
+    # the legacy single-stream usage (a bare module mapping through QcConfig.run): one stream, no window,
+    # every pair of one healthy and one unrunnable entry in both orders
+    legacy_tb = {"t": [0, 10, 20, 30], "hastime": True, "data": {"a": [0, 5, -3, 300], "b": [1, 1, 5, 0]},
+                 "z": [0, 1, 2, 3], "lat": [], "lon": []}
+    H = [{"stream": "a", "fn": "gross", "p": {"fail": [0, 4], "susp": []}},
+         {"stream": "a", "fn": "spike", "p": {"st": [1, 1], "ft": [3, 1], "method": "average"}},
+         {"stream": "a", "fn": "valid", "p": {"lo": 1, "hi": NA, "sincl": True, "eincl": False, "kind": "num"}}]
+    F = [{"stream": "a", "fn": "nomod", "p": {"none": 0}}, {"stream": "a", "fn": "notest", "p": {"none": 0}},
+         {"stream": "a", "fn": "boom", "p": {"none": 0}}]
+    for h in H:
+        for f in F:
+            for pair in ([h, f], [f, h]):
+                cases.append((legacy_tb, [{"win": [NA, NA], "entries": copy.deepcopy(pair)}]))
     import random as _r
     g = _r.Random(ctx.seed + 5)
     for _ in range(ctx.pick(150, 2500)):
@@ -236,14 +250,17 @@ def check(ctx):
     for n, (tb, cfg) in enumerate(cases):
         fes = [f for f in fe_all if pipe_exec.applicable(f, tb, cfg)]
         if not tb.get("hastime", True):
-            fes = [f for f in fes if f not in ("xarray_var",)]
+            fes = [f for f in fes if f not in ("xarray_var", "xarray_named", "netcdf_named")]
         if ctx.quick:
-            # every front end is visited round-robin; two per case
-            fes = [fes[(n + k) % len(fes)] for k in range(2)] if prop != "C06" else [fes[n % len(fes)]]
+            # every front end is visited round-robin; two per case (plus the legacy wrapper whenever it applies)
+            pick = [fes[(n + k) % len(fes)] for k in range(2)] if prop != "C06" else [fes[n % len(fes)]]
+            if "qcconfig_bare" in fes and "qcconfig_bare" not in pick:
+                pick.append("qcconfig_bare")
+            fes = pick
         for fe in fes:
             form = forms[(n + len(fe)) % 3]
             add_run(tb, cfg, fe, "base", form, max_orders)
-            if prop == "C18" and has_fault(tb, cfg) and fe != "qcconfig":
+            if prop == "C18" and has_fault(tb, cfg) and fe not in ("qcconfig", "qcconfig_bare"):
                 add_run(tb, healthy_only(tb, cfg), fe, "healthy_of", form, 0)
     if prop == "C06":
         # spec -> code: behaviours generated by TLC (-simulate): the collect order of each behaviour (complete, or a
